@@ -149,6 +149,7 @@ func LoadRepo(repoDir, tier string, tags []string, goos string) (*Ctx, error) {
 			}
 		}
 	}
+	computePhiAliases(c)
 	return c, nil
 }
 
